@@ -114,8 +114,85 @@ def b_udp(L):
   return pkt.udp(srcport=L["srcport"], dstport=L["dstport"])
 
 
+def _fv(f):
+  return {e["n"]: e["v"] for e in f}
+
+
+def mptcp_opt(d):
+  """a Multipath TCP option object from the fields the oracle lists for it (W.mp_fields mirrors MpFields of the
+  spec); subtypes without a field layout go in as opaque data"""
+  f = _fv(W.mp_fields(d))
+  if not f:
+    o = TCP.mp_unknown()
+    o.data = bytes(d)
+    return o
+  st = f["subtype"][0]
+  if st == 0:
+    o = TCP.mp_capable_opt()
+    o.version, o.flags, o.skey = f["version"][0], f["flags"][0], bytes(f["skey"])
+    if "rkey" in f:
+      o.rkey = bytes(f["rkey"])
+    return o
+  if st == 1:
+    o = TCP.mp_join_opt()
+    o.flags, o.address_id = f["flags"][0], f["addr"][0]
+    if "rtoken" in f:
+      o.phase, o.rtoken, o.srand = 1, bytes(f["rtoken"]), bytes(f["srand"])
+    elif "srand" in f:
+      o.phase, o.shmac, o.srand = 2, bytes(f["shmac"]), bytes(f["srand"])
+    else:
+      o.phase, o.shmac = 3, bytes(f["shmac"])
+    return o
+  o = TCP.mp_dss_opt()
+  o.flags = f["flags"][0]
+  if "ack" in f:
+    o.ack = u(f["ack"])
+  if "dsn" in f:
+    o.dsn, o.seq, o.length, o.csum = u(f["dsn"]), u(f["seq"]), u(f["length"]), u(f["csum"])
+  return o
+
+
+def _octets(v, n):
+  """an attribute that should hold an n-octet quantity, as a list of octets.  Always a list of small ints (TLC
+  compares it): a number that does not fit shows as a longer list, anything else as [] under a renamed field"""
+  if isinstance(v, bool):
+    return None
+  if isinstance(v, int):
+    if v < 0:
+      return None
+    return list(v.to_bytes(max(n, (v.bit_length() + 7) // 8), "big"))
+  if isinstance(v, (bytes, bytearray)):
+    return list(v)
+  return None
+
+
+def mptcp_view(o):
+  """the attributes of a parsed / built Multipath TCP option under the spec's field names (absent = None)"""
+  if type(o) is TCP.mp_unknown:
+    return {"k": o.type, "d": list(o.data), "f": []}
+  if type(o) is TCP.mp_capable_opt:
+    spec = [("subtype", o.subtype, 1), ("version", o.version, 1), ("flags", o.flags, 1), ("skey", o.skey, 8), ("rkey", o.rkey, 8)]
+  elif type(o) is TCP.mp_join_opt:
+    spec = [("subtype", o.subtype, 1), ("flags", o.flags, 1), ("addr", o.address_id, 1), ("rtoken", o.rtoken, 4),
+            ("shmac", o.shmac, 8), ("srand", o.srand, 4)]
+  elif type(o) is TCP.mp_dss_opt:
+    spec = [("subtype", o.subtype, 1), ("flags", o.flags, 1), ("ack", o.ack, 8), ("dsn", o.dsn, 8), ("seq", o.seq, 4),
+            ("length", o.length, 2), ("csum", o.csum, 2)]
+  else:
+    return {"k": o.type, "d": [], "f": [{"n": "?" + type(o).__name__, "v": []}]}
+  f = []
+  for name, v, n in spec:
+    if v is None:
+      continue
+    b = _octets(v, n)
+    f.append({"n": name, "v": b} if b is not None else {"n": "%s?%s" % (name, type(v).__name__), "v": []})
+  return {"k": o.type, "d": [], "f": f}
+
+
 def tcp_opt(x):
   k, d = x["k"], x["d"]
+  if k == 30:
+    return mptcp_opt(d)
   if k in (0, 1):
     return TCP.tcp_opt(k, None)
   if k == 2 and len(d) == 2:
@@ -133,6 +210,8 @@ def tcp_opt(x):
 
 def tcp_opt_view(o):
   k = o.type
+  if isinstance(o, TCP.mptcp_opt):
+    return mptcp_view(o)
   if k in (0, 1, 4):
     d = []
   elif k == 2:
@@ -143,11 +222,9 @@ def tcp_opt_view(o):
     d = [y for l, r in o.val for y in bl(l, 4) + bl(r, 4)]
   elif k == 8:
     d = bl(o.val[0], 4) + bl(o.val[1], 4)
-  elif k == 30:
-    d = list(o.pack()[2:])
   else:
     d = list(o.val)
-  return {"k": k, "d": d}
+  return {"k": k, "d": d, "f": []}
 
 
 def b_tcp(L):
@@ -719,7 +796,7 @@ def norm_tcp(d):
     for x in d["opts"]:
       if x["k"] == 0:
         break
-      out.append(x)
+      out.append(W.opt_view(x))           # (OptView in the spec; the adapter's own views carry "f" already)
     d["opts"] = out
   elif d.get("p") == "dhcp":
     d["opts"] = [x for x in d["opts"] if x["k"] != 0]       # pad options carry no information
@@ -885,6 +962,8 @@ class Adapter(object):
           if e["p"] == o["p"]:
             sig["layer"] = e["p"]
             sig["fields"] = sorted(k for k in e if o.get(k) != e[k])
+            if e["p"] == "tcp" and sig["fields"] == ["opts"]:
+              sig.update(_opt_diff(e["opts"], o.get("opts")))
           else:
             sig["after"] = ev[i - 1]["p"] if i else "start"
             sig["expected_layer"] = e["p"]
@@ -892,6 +971,26 @@ class Adapter(object):
           break
       return sig
     return sig
+
+
+def _opt_diff(eo, oo):
+  """which TCP option differs, and in which of its fields (kind / Multipath TCP subtype, not the values)"""
+  if not isinstance(oo, list):
+    return {}
+  for j in range(max(len(eo), len(oo))):
+    a = eo[j] if j < len(eo) else None
+    b = oo[j] if j < len(oo) else None
+    if a == b:
+      continue
+    if a is None or b is None or not isinstance(b, dict) or a["k"] != b.get("k"):
+      return {"option": "list_differs"}
+    out = {"option": "kind%d" % a["k"]}
+    if a.get("f"):
+      fa, fb = _fv(a["f"]), _fv(b.get("f") or [])
+      out["option"] = "mptcp/%d" % a["f"][0]["v"][0]
+      out["option_fields"] = sorted(n for n in set(fa) | set(fb) if fa.get(n) != fb.get(n))
+    return out
+  return {}
 
 
 def _innermost(stack):
